@@ -564,6 +564,29 @@ std::string do_save3(const Case& c) {
 					ps->psysDataRef.Clear();
 				}
 	}
+	// perturb=1: an edited model - every shape's positions and texture coordinates are set through the API to values
+	// that no 16-bit float holds exactly (what an editor does after loading; freshly loaded data is half-exact)
+	if (c.geti("perturb") == 1) {
+		for (auto shape : nif.GetShapes()) {
+			if (auto v = nif.GetVertsForShape(shape)) {
+				std::vector<Vector3> nv(*v);
+				for (size_t i = 0; i < nv.size(); ++i) {
+					nv[i].x += 0.0123f + 0.001f * static_cast<float>(i % 7);
+					nv[i].y -= 0.0071f;
+					nv[i].z += 0.0333f;
+				}
+				nif.SetVertsForShape(shape, nv);
+			}
+			if (auto uv = nif.GetUvsForShape(shape)) {
+				std::vector<Vector2> nuv(*uv);
+				for (size_t i = 0; i < nuv.size(); ++i) {
+					nuv[i].u += 0.00037f;
+					nuv[i].v -= 0.00011f;
+				}
+				nif.SetUvsForShape(shape, nuv);
+			}
+		}
+	}
 	std::string d0 = model_digest(nif);
 	std::string outs[3], digs[3];
 	for (int r = 0; r < 3; ++r) {
@@ -734,6 +757,40 @@ std::string do_resave(const Case& c) {
 	if (c.get("opts") == "raw") {
 		so.optimize = false;
 		so.sortBlocks = false;
+	}
+	// loose=k order=rev|fwd|mix: the file under test is the sample plus a chain of k unreferenced nodes (each lists the
+	// previous one as its child), stored child-before-parent (rev), parent-before-child (fwd) or alternating (mix),
+	// written raw and loaded again - a loadable file whose pruning needs several deletions that enable each other
+	if (!c.get("loose").empty()) {
+		long k = c.geti("loose");
+		NiHeader& hdr = nif.GetHeader();
+		std::vector<uint32_t> ids;
+		std::vector<NiNode*> nodes;
+		for (long i = 0; i < k; ++i) {
+			auto n = std::make_unique<NiNode>();
+			n->name.get() = "loose" + std::to_string(i);
+			nodes.push_back(n.get());
+			ids.push_back(hdr.AddBlock(std::move(n)));
+		}
+		// chain[j] is the j-th link counted from the innermost child; position of link j among the added blocks
+		std::vector<long> pos(k);
+		std::string order = c.get("order");
+		for (long j = 0; j < k; ++j)
+			pos[j] = order == "fwd" ? k - 1 - j : order == "mix" ? (j % 2 == 0 ? j / 2 : k - 1 - j / 2) : j;
+		for (long j = 1; j < k; ++j)
+			nodes[pos[j]]->childRefs.AddBlockRef(ids[pos[j - 1]]);
+		NifSaveOptions rawo;
+		rawo.optimize = false;
+		rawo.sortBlocks = false;
+		std::stringstream ss;
+		if (nif.Save(ss, rawo) != 0)
+			return os.str() + " loosesave=FAIL";
+		std::stringstream in(ss.str());
+		nif.Clear();
+		int l2 = nif.Load(in);
+		os << " looseload=" << l2 << ":" << nif.GetHeader().GetNumBlocks();
+		if (l2 != 0)
+			return os.str();
 	}
 	long rounds = c.get("rounds").empty() ? 1 : c.geti("rounds");
 	std::string last;
